@@ -269,6 +269,146 @@ def _replay(rec: Dict[str, Any]) -> List[Tuple[str, Dict[str, Any], str]]:
     return []
 
 
+TCFG = """CONSTANTS NThreads = {nt}
+ L1 = {l1}
+ L2 = {l2}
+ L3 = {l3}
+ MaxPreempt = {mp}
+ Stride = {st}
+ SharedScratch = {sh}
+ Walk = {walk}
+{next}
+INVARIANT Independence
+INVARIANT PreemptBound
+INVARIANT Export
+{props}
+"""
+_tables: Dict[int, Any] = {}
+# (document, context) of each thread: different roots and different contexts, the third equal to the first in value
+THREAD_PAIRS = {2: [(1, 1), (2, 2)], 3: [(1, 1), (2, 2), (3, 2)]}
+
+
+def _thread_setup(q: int, caching: bool, pairs: List[Tuple[int, int]]) -> Tuple[Any, List[Any], List[Any], List[Any]]:
+    import jsonpath
+
+    env = jsonpath.JSONPathEnvironment(filter_caching=caching)
+    path = env.compile(untext(_info["queries"][q - 1]))
+    docs = [untag(_info["docs"][d - 1]["doc"]) for d, _ in pairs]
+    ctxs = [untag(_info["ctxs"][c - 1]) for _, c in pairs]
+
+    def fn(i: int) -> Any:
+        return lambda: [tuple(m.parts) for m in path.finditer(docs[i], filter_context=ctxs[i])]
+
+    return path, docs, ctxs, [fn(i) for i in range(len(pairs))]
+
+
+def thread_lengths(args: Tuple[int, bool, int]) -> Any:
+    """Lines of the library each thread's evaluation executes on its own (the constants L1..L3 of MC_Threads)."""
+    from ..linesched import solo_lines
+
+    q, caching, nt = args
+    try:
+        _p, _d, _c, fns = _thread_setup(q, caching, THREAD_PAIRS[nt])
+        return [solo_lines(f)[0] for f in fns]
+    except BaseException as e:  # noqa: BLE001
+        return f"raised-{exc_family(e)}"
+
+
+def replay_threads(args: Tuple[int, bool, int, List[List[List[int]]]]) -> List[Tuple[str, Dict[str, Any], str]]:
+    """Real threads over one shared compiled query, run along each schedule of a chunk under the line-grain scheduler."""
+    from jsonpath import _verif
+
+    from ..linesched import Run
+
+    q, caching, nt, scheds = args
+    pairs = THREAD_PAIRS[nt]
+    expected = [[loc_to_parts(l) for l in _tables[q][d - 1][c - 1]] for d, c in pairs]
+    out: List[Tuple[str, Dict[str, Any], str]] = []
+    for sched in scheds:
+        if _verif.ENABLED:
+            _verif.reset()
+        path, docs, ctxs, fns = _thread_setup(q, caching, pairs)
+        text0, sels0, hash0 = str(path), path.selectors, hash(path)
+        pd = [canon(tag(d)) for d in docs]
+        pc = [canon(tag(c)) for c in ctxs]
+        r = Run(fns)
+        r.run([(t - 1, n) for t, n in sched])
+        disc = ""
+        for i in range(nt):
+            if r.errors[i] is not None:
+                disc = f"thread-raised-{exc_family(r.errors[i])}"
+            elif not r.done[i]:
+                disc = "thread-did-not-finish"
+            elif r.results[i] != expected[i]:
+                disc = "thread-result-differs-from-a-solo-evaluation"
+            if disc:
+                break
+        if not disc:
+            if [canon(tag(d)) for d in docs] != pd:
+                disc = "document-modified"
+            elif [canon(tag(c)) for c in ctxs] != pc:
+                disc = "filter-context-modified"
+            elif str(path) != text0 or path.selectors != sels0 or hash(path) != hash0:
+                disc = "compiled-query-modified"
+        if disc:
+            out.append((f"threads:{disc}|caching={caching}|q{q}", {"query": untext(_info["queries"][q - 1]), "filter_caching": caching, "threads": pairs,
+                        "schedule_bursts_thread_lines": sched, "expected_parts": [str(e) for e in expected], "observed_parts": [str(x) for x in r.results],
+                        "q": q, "nt": nt}, disc))
+            break      # one schedule per chunk is enough to report
+    return out
+
+
+def threads_part(chk: Check, tier: str, seed: int) -> None:
+    """MC_Threads: schedules at the grain of one library line, enumerated by TLC, run with real threads."""
+    # self-test of the specification: a stash on a shared object must be refuted with one pre-emption
+    r = tlc("MC_Threads", TCFG.format(nt=2, l1=6, l2=6, l3=0, mp=1, st=1, sh="TRUE", walk="FALSE", next="INIT Init\nNEXT Next", props=""), expect_violation=True, timeout=600, workers=2)
+    if not r.violation or "Independence" not in r.violation:
+        raise MachineryError("MC_Threads with SharedScratch=TRUE did not violate Independence (the model has lost its teeth)")
+    chk.extra["spec_selftest_threads"] = "SharedScratch=TRUE refuted by TLC: " + r.violation
+    r = tlc("MC_Threads", TCFG.format(nt=3, l1=7, l2=6, l3=5, mp=3, st=1, sh="FALSE", walk="FALSE", next="SPECIFICATION Spec", props="PROPERTY Terminates"), timeout=900, workers=4,
+            deadlock=False)
+    chk.add_tlc(r)
+    queries = list(range(1, NQUERIES + 1))
+    plans = [(q, caching, 2) for q in queries for caching in (True, False)]
+    plans += [(q, True, 3) for q in (queries[::4] if tier == "quick" else queries)]
+    lens = list(core.pmap(thread_lengths, plans, item_timeout=120))
+    jobs = []
+    for (q, caching, nt), ls in zip(plans, lens):
+        if not isinstance(ls, list) or not all(isinstance(x, int) for x in ls):
+            chk.violation(f"threads:solo-run-{ls if isinstance(ls, str) else 'abnormal'}|q{q}", {"query": untext(_info["queries"][q - 1]), "filter_caching": caching}, "solo traced run failed")
+            continue
+        l3 = ls[2] if nt == 3 else 0
+        if nt == 2:
+            # every line of either thread as the single pre-emption point; two pre-emptions on a grid
+            # (quick: every line with caching on, every fourth line with caching off)
+            st1 = 4 if (tier == "quick" and not caching) else 1
+            jobs.append(((q, caching, nt), ("MC_Threads", TCFG.format(nt=2, l1=ls[0], l2=ls[1], l3=0, mp=1, st=st1, sh="FALSE", walk="FALSE", next="INIT Init\nNEXT Next", props=""), dict(timeout=1200, workers=2))))
+            grid = max(2, max(ls) // (8 if tier == "quick" else 60))
+            jobs.append(((q, caching, nt), ("MC_Threads", TCFG.format(nt=2, l1=ls[0], l2=ls[1], l3=0, mp=2, st=grid, sh="FALSE", walk="FALSE", next="INIT Init\nNEXT Next", props=""), dict(timeout=1200, workers=2))))
+        else:
+            grid = max(2, max(ls) // (5 if tier == "quick" else 16))
+            jobs.append(((q, caching, nt), ("MC_Threads", TCFG.format(nt=3, l1=ls[0], l2=ls[1], l3=l3, mp=2, st=grid, sh="FALSE", walk="FALSE", next="INIT Init\nNEXT Next", props=""), dict(timeout=1200, workers=2))))
+            jobs.append(((q, caching, nt), ("MC_Threads", TCFG.format(nt=3, l1=ls[0], l2=ls[1], l3=l3, mp=0, st=max(2, max(ls) // 20), sh="FALSE", walk="TRUE", next="INIT Init\nNEXT NextSim", props=""),
+                                            dict(simulate=(40 if tier == "quick" else 1500, 400), seed=seed + q, workers=1, timeout=1200))))
+    items = []
+    nsched = 0
+    for (key, _job), r in zip(jobs, core.tlc_parallel([j for _k, j in jobs], threads=8)):
+        chk.add_tlc(r)
+        scheds = sorted({json.dumps(x["sched"]) for x in r.records})
+        nsched += len(scheds)
+        for k in range(0, len(scheds), 60):
+            items.append((key[0], key[1], key[2], [json.loads(x) for x in scheds[k:k + 60]]))
+    for it, res in zip(items, core.pmap(replay_threads, items, chunk=20, item_timeout=300)):
+        chk.traces += len(it[3])
+        for sig, case, what in res:
+            chk.violation(sig, case, what)
+    chk.extra["thread_schedules_replayed"] = nsched
+    chk.extra["thread_workloads"] = len(plans)
+    if items:
+        chk.sample({"threads": THREAD_PAIRS[items[0][2]], "query": untext(_info["queries"][items[0][0] - 1]), "schedule_bursts_thread_lines": items[0][3][min(7, len(items[0][3]) - 1)]})
+
+
+
 def run(chk: Check, tier: str, seed: int) -> None:
     recs: List[Dict[str, Any]] = []
     # self-test of the specification: the wrong design must be refuted
@@ -288,6 +428,8 @@ def run(chk: Check, tier: str, seed: int) -> None:
         for x in r.records:
             if "docs" in x:
                 _info.update(x)
+            elif "table" in x:
+                _tables[x["table"]] = x["exp"]
             else:
                 recs.append(x)
     if tier == "quick":
@@ -329,6 +471,7 @@ def run(chk: Check, tier: str, seed: int) -> None:
         for sig, case, what in res:
             chk.violation(sig, case, what)
     chk.extra["document_supplied_pattern_queries_compared_across_histories"] = len(HISTORY_QUERIES)
+    threads_part(chk, tier, seed)
     # ---- code -> specification: the hook events of every history validated by TLC (Trace_Cache.tla)
     if traces:
         sc = core.scratch()
@@ -358,7 +501,7 @@ def run(chk: Check, tier: str, seed: int) -> None:
                 "filter contexts, one-shot evaluations and re-compilation in every interleaving of length 4 (quick: a quarter of them, two queries) plus seeded "
                 "walks of length 12 for all 8 queries (root-/context-rooted sub-queries, functions of them, nested filters, current key); each replayed with filter "
                 "caching on and off; non-trivial = at least two iterators opened; every 40th history also repeats the evaluation 100 times")
-    chk.assumptions += ["interleaving is at the grain of next() on the lazy iterators; pre-emptive thread schedules inside one next() are not explored"]
+    chk.assumptions += ["iterator interleavings are at the grain of next(); thread schedules are at the grain of one source line of the library under a deterministic scheduler (all single pre-emption points, two pre-emptions on a grid, seeded random bursts) - pre-emption inside one line (between bytecodes) is not explored"]
 
 
 def replay_file(case: Dict[str, Any]) -> int:
